@@ -5,7 +5,7 @@
    Quantification over parameter values: every phase ring R and atoms A (u = e^{i pi/16}, z_j = e^{i theta_j/4}). *)
 From Coq Require Import Lia.
 From QV Require Import Model.QasmImport Spec.QasmSem Found.Circ Gen.Gates Gen.Qasm.
-From QV Require Import Proofs.QasmShortcut Proofs.QasmIf Proofs.QasmSubst Proofs.QasmRegs Proofs.QasmRejects Proofs.QasmCustom Proofs.QasmSem1 Proofs.QasmSem2 Proofs.QasmSound Proofs.QasmTotal1 Proofs.QasmTotal2.
+From QV Require Import Proofs.QasmShortcut Proofs.QasmIf Proofs.QasmSubst Proofs.QasmRegs Proofs.QasmRejects Proofs.QasmCustom Proofs.QasmSem1 Proofs.QasmSem2 Proofs.QasmSound Proofs.QasmTotal1 Proofs.QasmTotal2 Proofs.QasmSpecTotal.
 Local Open Scope string_scope.
 Local Open Scope nat_scope.
 Local Open Scope list_scope.
@@ -170,6 +170,29 @@ Theorem import_total : forall (A : VAlg), (forall a b : A, vdiv A a b <> None) -
 Proof. exact import_total_thm. Qed.
 Print Assumptions import_total.
 
+(* spec_total: the standard's semantics is DEFINED on every program that is well-formed per the standard (same wf, same
+   side condition as import_total and no more): collecting the gate definitions, resolving and broadcasting register
+   arguments, evaluating parameters and macro-expanding user gates to library-level leaves at every nesting depth never
+   fails.  So wf is not more permissive than the hand-written semantics it guards, and the hypothesis
+   `spec_prog A sig0 p = Some ..` of import_sound is satisfied by every well-formed program.  (sig0 = lib_sigs as lookup
+   tables by shortcut_table_complete.) *)
+Theorem spec_total : forall (A : VAlg), (forall a b : A, vdiv A a b <> None) ->
+  forall p, wf lib_sigs p = true -> spec_prog A sig0 p <> None.
+Proof. exact spec_total_thm. Qed.
+Print Assumptions spec_total.
+
+(* import_sound_total = import_total + spec_total + import_sound: for EVERY well-formed program (wf includes non-empty
+   registers) and total vdiv, the importer accepts it, the standard gives it a meaning, both with the same numbers of
+   qubits and classical bits, and the imported circuit has the standard's branch semantics (see import_sound).  No
+   definedness hypothesis is left. *)
+Theorem import_sound_total : forall (R : PhaseRing) (A : VAlg) (aenv : list A -> atoms R) p,
+  (forall a b : A, vdiv A a b <> None) -> wf lib_sigs p = true ->
+  exists n c iops sops, import_prog A p = Some (n, c, iops) /\ spec_prog A sig0 p = Some (n, c, sops) /\
+    forall cb r psi1 psi2, rel R psi1 psi2 ->
+      creq R (run_iops R A aenv iops (cb, psi1, r)) (run_sops R A aenv sops (cb, psi2, r)).
+Proof. exact import_sound_total_thm. Qed.
+Print Assumptions import_sound_total.
+
 (* non-vacuity *)
 Example rejects_instance :
   let p := mkProg [("q", 2)] [] [] [OApp "cx" [] [AIdx "q" 0; AIdx "q" 5]] in
@@ -198,6 +221,18 @@ Example import_total_instance :
               OBarrier [AReg "q"; AIdx "r" 1]; OMeasure (AReg "q") (AReg "c")] in
   wf lib_sigs p = true /\ (forall a b : TermAlg, vdiv TermAlg a b <> None) /\ import_prog TermAlg p <> None.
 Proof. split; [vm_compute; reflexivity|]. split; [intros a b; discriminate|vm_compute; discriminate]. Qed.
+Example spec_total_instance :
+  let p := mkProg [("q", 2); ("r", 2); ("s", 1)] [("c", 2)]
+             [GDef "g" (mkGdef ["t"] ["a"; "b"] [BCall "rx" [EDiv (EId "t") (ENum 2)] ["a"]; BBarrier ["a"]; BCall "cz" [] ["b"; "a"]]);
+              GDef "nop" (mkGdef [] ["a"] [BBarrier ["a"]]); GDef "usenop" (mkGdef [] ["a"; "b"] [BCall "nop" [] ["b"]]);
+              GDef "gg" (mkGdef ["x"; "y"] ["a"; "b"; "c"] [BCall "g" [EMul (EId "x") (EId "y")] ["c"; "a"]; BCall "usenop" [] ["b"; "c"];
+                                                         BCall "U" [EId "x"; EPi; ENeg (EId "y")] ["b"]; BCall "CX" [] ["c"; "b"]])]
+             [OApp "cx" [] [AReg "q"; AReg "r"]; OApp "gg" [EPi; ENum 3] [AReg "q"; AIdx "s" 0; AReg "r"]; OMeasure (AIdx "q" 0) (AIdx "c" 0);
+              OIf "c" 1 "g" [EPi] [AIdx "q" 1; AIdx "r" 0]; OIf "c" 9 "gg" [EPi; ENum 3] [AIdx "q" 1; AIdx "r" 0; AIdx "q" 0];
+              OBarrier [AReg "q"; AIdx "r" 1]; OMeasure (AReg "q") (AReg "c")] in
+  wf lib_sigs p = true /\ (forall a b : TermAlg, vdiv TermAlg a b <> None) /\
+  exists sops, spec_prog TermAlg sig0 p = Some (5, 2, sops) /\ length sops = 9.
+Proof. split; [vm_compute; reflexivity|]. split; [intros a b; discriminate|]. eexists. split; vm_compute; reflexivity. Qed.
 Example regs_ok_instance : regs_gate true [("q", (0, 2)); ("r", (2, 2))] [AReg "q"; AIdx "r" 1] = Some [[0; 3]; [1; 3]].
 Proof. vm_compute. reflexivity. Qed.
 Example shortcut_ok_ccx : exists c1 c2, imp_sym "ccx" = Some c1 /\ std_with_phase "ccx" = Some c2 /\ length c1 = 1 /\ length c2 = 16
